@@ -4,6 +4,7 @@ import SimVerif.Driver.Vote
 import SimVerif.Driver.Feat
 import SimVerif.Driver.Geom
 import SimVerif.Driver.Own
+import SimVerif.Driver.Py
 import SimVerif.Driver.Store
 import SimVerif.Driver.Trk
 import SimVerif.Driver.Kf
@@ -30,6 +31,7 @@ def step (st : DState) (line : String) : DState × String :=
   | "box" :: args => (st, GeomD.handleBox args impl)
   | "geom" :: args => (st, GeomD.handleGeom args impl)
   | "own" :: args => (st, OwnD.handle args impl)
+  | "py" :: args => (st, PyD.handle args impl)
   | "feat" :: args => (st, FeatD.handle args impl)
   | "vote" :: args => (st, VoteD.handle args impl)
   | "constr" :: args => let (s, r) := ConstrD.handle st.constr args impl; ({ st with constr := s }, r)
